@@ -677,7 +677,8 @@ pub fn gen_request(rng: &mut Rng, g: &GenCtx) -> Req {
   } else {
     None
   };
-  Req { q, fields, fuzzy }
+  let legacy_string = rng.chance(0.4);
+  Req { q, fields, fuzzy, legacy_string }
 }
 
 /// dedicated generator: `term(field, word)` for source words of live documents
@@ -691,5 +692,5 @@ pub fn word_requests(rng: &mut Rng, g: &GenCtx, max: usize) -> Vec<Req> {
   let mut all: Vec<(String, String)> = seen.into_iter().collect();
   rng.shuffle(&mut all);
   all.truncate(max);
-  all.into_iter().map(|(field, value)| Req { q: Q::Term { field, value, boost: None }, fields: None, fuzzy: None }).collect()
+  all.into_iter().map(|(field, value)| Req { q: Q::Term { field, value, boost: None }, fields: None, fuzzy: None, legacy_string: false }).collect()
 }
